@@ -112,6 +112,27 @@ def run_case(c):
         if r[0] == "fail":
             r.append({repr(list(chip)): sizes(t) for chip, t in tables.items()})
         return r
+    if op == "seq":
+        # several minimiser calls in this one interpreter; a later table is seeded with entries whose
+        # key and mask are merge products of the earlier calls (with another route).  The tables actually
+        # used are returned so that the oracle and the model see them.
+        products, steps = [], []
+        for st in c["steps"]:
+            spec = list(st["table"])
+            if st.get("seed_route") is not None:
+                spec += [[st["seed_route"], k, m, st["seed_sources"]] for k, m in products[-st["seed_n"]:]]
+            table = sorted((entry(e) for e in spec),
+                           key=lambda e: bin(~e.key & ~e.mask & 0xffffffff).count("1"))
+            f = ordered_covering.minimise if st["op"] == "oc_min" else minimise_table
+            used = out_table(table)
+            r = guarded(lambda: ["ok", out_table(f(table, st["target"]))])
+            if r[0] == "ok":
+                have = set((e[1], e[2]) for e in used)
+                products += [[e[1], e[2]] for e in r[1] if (e[1], e[2]) not in have]
+            elif r[0] == "fail":
+                r.append(sizes(table))
+            steps.append([used, r])
+        return ["seq", steps]
     table = [entry(e) for e in c["table"]]
     target = c["target"]
     if op == "rde":
